@@ -775,6 +775,12 @@ class Assembler:
                     expect_name = False
                 q += 1
         for a in args[2:]:
+            if a == "pad":
+                # R10b: a struct whose fields are all floats gets no typing invariant for them in Verus' encoding
+                # (has_type of a float field is then unprovable); an unused integer field restores it.
+                rw.edit(toks[it["body_close"]].start, toks[it["body_close"]].start, "    pub vx_pad: u8,\n", "R10b")
+                self.rule_counts["R10b"] = self.rule_counts.get("R10b", 0) + 1
+                continue
             attrs.append(a)
         for a in attrs:
             self.emit_verbatim(a, ("ins", "R10"))
